@@ -50,6 +50,8 @@ def cases(tier, seed):
         for kind in ('gauss', 'lowrank'):
             for eps in (1e-12, 1e-3, 0.3):
                 cs.append({'gen': 'random', 'kind': kind, 'N': N, 'dtype': dt, 'source': 'torch', 'shape': 'none', 'eps': eps, 'rmax': 'none', 'tall': True})
+    for i, N_ in enumerate([[4, 128, 128], [4, 16384], [4, 128, 128], [5, 20000]]):
+        cs.append({'gen': 'random', 'kind': 'single_long', 'N': N_, 'dtype': ['f32', 'c64'][i % 2], 'source': ['torch', 'numpy'][(i // 2) % 2], 'shape': 'none', 'eps': 1e-4, 'rmax': 'none'})
     for src in ('torch', 'numpy'):
         for shape in ('none', 'tensor', 'operator'):
             cs.append({'gen': 'random', 'kind': 'gauss', 'N': [5], 'M': [3], 'dtype': 'f64', 'source': src, 'shape': shape, 'eps': 1e-10, 'rmax': 'none'})
@@ -117,6 +119,15 @@ def make_input(case, g):
         A = gens.values(modes, dt, 'gauss', g)
     elif kind == 'zero':
         A = torch.zeros(modes, dtype=dt)
+    elif kind == 'single_long':
+        # single precision and LONG unfoldings (16384 columns): first unfolding U diag(1, 1e-3, 1e-3, 1e-3) V^H - content far above eps = 1e-4 and above single-precision roundoff,
+        # but below a "numerical rank" floor that scales with max(rows, cols) * machine eps
+        up = dn.up(dt)
+        r0, rest = modes[0], dn.prod(modes[1:])
+        U = gens.orth(r0, g, up)[:, :4]
+        Qv, _ = torch.linalg.qr(gens.values([rest, 4], up, 'gauss', g))
+        sv = torch.tensor([1.0, 1e-3, 1e-3, 1e-3], dtype=torch.float64).to(up)
+        A = ((U * sv) @ Qv.conj().T).reshape(modes).to(dt)
     elif kind == 'tall_deep':
         # A = U diag(s) V^H reshaped: the LAST unfolding is (prod of the leading modes) x m with singular values 1, 10^-k, ... down to ~1e-11
         m_ = modes[-1]
